@@ -127,3 +127,22 @@ package main
 //@   ensures[C04:reply-is-what-was-received] len(r0) == n && forall(i, 0, n, r0[i] == seq[i])
 //@   loop 1
 //@     invariant[C04:collected] len(requestIDs) == n && n >= 1 && forall(i, 0, n, requestIDs[i] == seq[i])
+
+// A poll is answered with the serialisation of exactly the ids this poll took from the queue (C04: an id handed to one
+// poller is not handed to another, and nothing else is reported).
+//@ func (*proxy).handleAgentListRequests props(C04,C07)
+//@   requires p != nil && w != nil && r != nil && p.requestIDs != nil
+//@   ghost ids []string
+//@   ghost waited int = 0
+//@   ghost js []byte
+//@   ghost bodies int = 0
+//@   call (*proxy).waitForRequestIDs
+//@     assert[C04:one-wait-per-poll] waited == 0 && arg0 == p
+//@     do ids = ret0
+//@     do waited = waited + 1
+//@   call json.Marshal
+//@     assert[C04:reply-serialises-exactly-the-ids-received] waited == 1 && typeis(arg0, "[]string") && ifaceStrs(arg0) == ids
+//@     do js = ret0
+//@   call (http.ResponseWriter).Write
+//@     assert[C04:reply-body-is-that-serialisation] arg0 == w && arg1 == js && bodies == 0 && waited == 1
+//@     do bodies = bodies + 1
